@@ -48,10 +48,27 @@ class Built:
         def impl(*args):
             # lazy inputs (Iter / Map) are consumed first, as a real body would before doing its work; a
             # failure while consuming them is a failure of the inputs, not a run of the body
+            received = args
             args = tuple(sem.freeze(a) for a in args)
             log.append(("body", name))
             if partial and sem.PARTIAL_WHEN[partial["when"]](args):
                 raise sem.EXC[partial["exc"]](f"partial:{name}")
+            if kind == "tagmut":
+                # a body that works in place on the containers it was given (sort / append / pop in real code): whatever
+                # it was handed must be its own copy, never the caller's or a pre-set dictionary's object
+                def scribble(a, depth=0):
+                    if isinstance(a, list):
+                        for x in a:
+                            if depth < 2:
+                                scribble(x, depth + 1)
+                        a.append("scribbled-by-body")
+                    elif isinstance(a, dict):
+                        for x in list(a.values()):
+                            if depth < 2:
+                                scribble(x, depth + 1)
+                        a["scribbled-by-body"] = 1
+                for a in received:
+                    scribble(a)
             if kind == "first":
                 return args[0]
             return (name,) + args
@@ -154,11 +171,11 @@ class Built:
         if isinstance(impl, dict) and impl.get("k") == "ovfn":
             g = _make_fn(impl["name"], len(impl["params"]), self.body_impl(impl["name"], impl["body"], impl.get("partial")))
             g.__defaults__ = tuple(self.node(p) for p in impl["params"])
-            return ds.overload(alias)(g)
+            return ds.overload(sem.alias_arg(alias))(g)
         obj = self.node(impl)
         if isinstance(obj, Dataset):
-            return ds.overload(alias)(obj)
-        for a in (alias if isinstance(alias, list) else [alias]):
+            return ds.overload(sem.alias_arg(alias))(obj)
+        for a in sem.alias_list(alias):
             ds.register(a, obj)
         return obj
 
